@@ -239,6 +239,11 @@ def build_instrument(d):
         return None
     if d[0] == "plain":
         return {"Instrument": INSTR.Instrument, "Piano": INSTR.Piano, "Guitar": INSTR.Guitar}[d[1]]()
+    if d[0] == "bank":
+        m = INSTR.MidiInstrument(d[1])
+        m.names = list(d[3])
+        m.instrument_nr = d[2]
+        return m
     if d[0] == "midi":
         m = INSTR.MidiInstrument(d[1])
         if d[2] is not None:
@@ -729,7 +734,10 @@ PT_BARS = [
 PT_FULL = [0, 1, 2, 3, 4]
 INSTRUMENTS = [None, ["midi", "Violin", 40], ["plain", "Piano"], ["midi", "", 13], ["midi", "Gunshot", 127],
                ["plain", "Guitar"], ["midi", "Acoustic Grand Piano", 0], ["midi", "Flute", None], ["plain", "Instrument"],
-               ["midi", "Church Organ", 19], ["midi", "Harpsichord", 6], ["midi", "", None]]
+               ["midi", "Church Organ", 19], ["midi", "Harpsichord", 6], ["midi", "", None],
+               # MIDI instruments that carry a name table of their own (a sound bank), next to stock ones of the same names
+               ["bank", "Violin", 3, ["Kazoo", "Piano", "Drum", "Violin"]], ["midi", "Kazoo", 1], ["bank", "Kazoo", 0, ["Kazoo", "Piano", "Drum", "Violin"]],
+               ["bank", "Flute", 2, ["Piano", "Violin", "Flute"]]]
 PT_CHANNELS = [3, 7, 11, 0]
 
 
@@ -1257,6 +1265,9 @@ def explore(ctx):
         ctx.bound("tracks", dict(("%d track(s): voices" % k, len(v["voices"])) for k, v in TRK_CFG.items()))
         shards = [(k, i) for k in sorted(TRK_CFG) for i in range(len(TRK_CFG[k]["voices"]))]
         ctx.product("tracks", shards, gen_tracks)
+        # tracks without a single bar among the others (and alone): they take no time, but each is announced on its channel
+        empties = [[[]], [[], []], [[], [0]], [[0], []], [[3, 1], []], [[], [0], [3]], [[0], [], [6]], [[0], [1], []], [[], [], [7]]]
+        ctx.serial("tracks", [_tracks_case(c, n) for c in empties for n in range(8)])
     if ctx.want("replay"):
         ctx.bound("replay", {"bars": len(REPLAY_BARS), "edits": REPLAY_EDITS, "calls": REPLAY_VIAS})
         ctx.product("replay", list(range(len(REPLAY_BARS))), lambda bi: ([bi, via, e] for via in REPLAY_VIAS for e in REPLAY_EDITS))
